@@ -1794,6 +1794,26 @@ fn check_pathrpc(what: &str, r: &RpcPath, src: IsdAsn, dst: IsdAsn, lean: &mut L
         Err(m) => rep.spec_fail("C18:panic:path-rpc", &format!("ScionPath::try_from_rpc panicked: {m}"), case()),
         Ok(Err(_)) => {}
         Ok(Ok(p)) => {
+            // wire format: a daemon GeoCoordinates message means "no geo information" only when all its fields
+            // have the proto3 default (latitude 0, longitude 0, empty address) - that is what to_rpc writes for
+            // an absent geo_info; every other message carries a position / an address and must be kept bit for
+            // bit when the vector has one entry per interface
+            if let Some(ifs) = p.metadata().and_then(|m| m.interfaces.as_ref()) {
+                if r.geo.len() == ifs.len() {
+                    for (i, (g, x)) in r.geo.iter().zip(ifs.iter()).enumerate() {
+                        let absent = g.latitude == 0.0 && g.longitude == 0.0 && g.address.is_empty();
+                        let kept = match &x.geo_info {
+                            None => absent,
+                            Some(k) => !absent && k.latitude.to_bits() == g.latitude.to_bits() && k.longitude.to_bits() == g.longitude.to_bits() && k.address.clone().unwrap_or_default() == g.address,
+                        };
+                        if !kept {
+                            rep.spec_fail("C18:path-from-rpc:geo-info", &format!("try_from_rpc does not keep the geo entry of interface {i}: message (lat {:e} = bits {:#010x}, lon {:e} = bits {:#010x}, address {:?}) became {:?}", g.latitude, g.latitude.to_bits(), g.longitude, g.longitude.to_bits(), g.address, x.geo_info), case());
+                            break;
+                        }
+                    }
+                    rep.hit("pathrpc: geo vector checked entry by entry");
+                }
+            }
             // to_rpc vs model, then the round trip (spec)
             let Some(back) = check_to_rpc(what, &p, lean, rep) else { return };
             match catch(|| ScionPath::try_from_rpc(back, src, dst)) {
@@ -1801,10 +1821,12 @@ fn check_pathrpc(what: &str, r: &RpcPath, src: IsdAsn, dst: IsdAsn, lean: &mut L
                     let (c1, c2) = (canon_path(&p), canon_path(&p2));
                     if c1 != c2 {
                         let exp_big = p.metadata().map(|m| m.expiration > i64::MAX as u64).unwrap_or(false);
+                        let geo = geo_lost(&p, &p2);
                         let key = if has_unknown_alias(&p) { "C18:path-roundtrip:linktype-unknown-alias" }
                                   else if exp_big { "C18:path-roundtrip:expiration-above-i64" }
+                                  else if geo.is_some() { "C18:path-roundtrip:geo-info" }
                                   else { "C18:path-roundtrip" };
-                        rep.spec_fail(key, &format!("try_from_rpc(to_rpc(p)) != p: {} vs {}", cut(&c1), cut(&c2)), case());
+                        rep.spec_fail(key, &format!("try_from_rpc(to_rpc(p)) != p: {}{} vs {}", geo.map(|g| format!("{g}; ")).unwrap_or_default(), cut(&c1), cut(&c2)), case());
                     } else if p2 != p {
                         // bitwise equal canonical form but `==` false: NaN coordinates
                         rep.hit("path roundtrip: bitwise equal, PartialEq false (NaN geo)");
@@ -1856,6 +1878,27 @@ fn gen_direct_path(rng: &mut Rng) -> ScionPath {
     }
 }
 
+/// a coordinate from the boundary regions of f32: around the origin (down to the smallest subnormal), signed
+/// zero, around 1 ulp / f32::EPSILON / MIN_POSITIVE, the ends of the range, infinities, NaNs with payload, and
+/// ordinary WGS 84 values
+fn edge_coord(rng: &mut Rng) -> f32 {
+    let v = match rng.below(12) {
+        0 => 0.0,
+        1 => f32::from_bits(1 + (rng.next() as u32 & 0xff)),                 // smallest subnormals
+        2 => f32::from_bits(rng.next() as u32 & 0x007f_ffff),                // any subnormal (or 0)
+        3 => f32::MIN_POSITIVE,
+        4 => *rng.pick(&[5.0e-8f32, 2.5e-8, 1.0e-7, 1.0e-10, 1.0e-20, 1.0e-30, 1.0e-38]),
+        5 => f32::from_bits(f32::EPSILON.to_bits().wrapping_add(rng.below(5) as u32).wrapping_sub(2)), // EPSILON ± 2 ulp
+        6 => *rng.pick(&[f32::EPSILON / 2.0, f32::EPSILON * 2.0, 1.0e-6, 1.0e-5, 1.0e-3]),
+        7 => f32::from_bits(0x7fc0_0000 | (rng.next() as u32 & 0x003f_ffff)), // quiet NaN with payload
+        8 => f32::from_bits(0x7f80_0001 + (rng.next() as u32 & 0x003f_fffe)), // signalling NaN
+        9 => *rng.pick(&[f32::INFINITY, f32::MAX, 90.0, 180.0, 1.0]),
+        10 => f32::from_bits((rng.below(0x68) as u32) << 23 | (rng.next() as u32 & 0x007f_ffff)), // |x| < 2^-23
+        _ => (rng.below(180_000) as f32) / 1000.0,
+    };
+    if rng.chance(1, 2) { -v } else { v }
+}
+
 /// a directly constructed path that satisfies every condition of `PathCanon` (Lemmas/Signed.lean) by
 /// construction: even, non-zero interface count; expiration ≤ i64::MAX; notes absent or one per AS; nothing on
 /// the last interface; link types on all even interfaces or on none; hop counts on all inner odd interfaces or
@@ -1873,6 +1916,17 @@ fn gen_canonical_direct_path(rng: &mut Rng) -> ScionPath {
                 interface: PathInterface::new(IsdAsn::from(IA_BASE + (i as u64 + 1) / 2), rng.next() as u16),
                 geo_info: rng.chance(1, 2).then(|| {
                     let addr = match rng.below(2) { 0 => None, _ => Some("Bern".to_string()) };
+                    if rng.chance(1, 2) {
+                        // a present position anywhere in the f32 range, in particular next to the origin,
+                        // signed zeros, subnormals, infinities, NaNs: every bit pattern is a value of the
+                        // field and has to come back (only lat == 0 && lon == 0 without address is the wire
+                        // form of "absent" and is excluded, see direct_class)
+                        let (mut lat, lon) = (edge_coord(rng), edge_coord(rng));
+                        if lat == 0.0 && lon == 0.0 && addr.is_none() {
+                            lat = f32::from_bits(1 + (rng.next() as u32 & 0x7f));
+                        }
+                        return GeoCoordinates::new(lat, lon, addr);
+                    }
                     let lat = if addr.is_none() || rng.chance(1, 2) { f32::from_bits(0x3f80_0000 | (rng.next() as u32 & 0xffff)) } else { 0.0 };
                     GeoCoordinates::new(lat, if rng.chance(1, 2) { 0.0 } else { -7.5 }, addr)
                 }),
@@ -1947,6 +2001,25 @@ fn direct_class(p: &ScionPath) -> Option<&'static str> {
     None
 }
 
+/// first interface whose geo information differs (bit level: latitude / longitude bits, address bytes, presence)
+/// between a path and what came back from `to_rpc → try_from_rpc`
+fn geo_lost(p: &ScionPath, p2: &ScionPath) -> Option<String> {
+    let a = p.metadata()?.interfaces.as_ref()?;
+    let b = p2.metadata().and_then(|m| m.interfaces.as_ref());
+    let show = |g: &Option<GeoCoordinates>| match g {
+        None => "None".to_string(),
+        Some(g) => format!("Some(lat {:e} = bits {:#010x}, lon {:e} = bits {:#010x}, address {:?})", g.latitude, g.latitude.to_bits(), g.longitude, g.longitude.to_bits(), g.address),
+    };
+    let bits = |g: &Option<GeoCoordinates>| g.as_ref().map(|g| (g.latitude.to_bits(), g.longitude.to_bits(), g.address.clone()));
+    for (i, x) in a.iter().enumerate() {
+        let y = b.and_then(|l| l.get(i)).map(|y| y.geo_info.clone()).unwrap_or(None);
+        if bits(&x.geo_info) != bits(&y) {
+            return Some(format!("interface {i}: geo_info {} came back as {}", show(&x.geo_info), show(&y)));
+        }
+    }
+    None
+}
+
 /// spec for directly constructed paths: `try_from_rpc(to_rpc(p), src, dst)` gives `p` back
 fn check_direct_roundtrip(what: &str, p: &ScionPath, back: RpcPath, rep: &mut Report) {
     let cp = canon_path(p);
@@ -1954,6 +2027,7 @@ fn check_direct_roundtrip(what: &str, p: &ScionPath, back: RpcPath, rep: &mut Re
     let class = direct_class(p);
     rep.case(&format!("direct|{cp}"), class.is_none());
     let res = catch(|| ScionPath::try_from_rpc(back, p.src_ia(), p.dst_ia()));
+    let mut geo = None;
     let lost = match &res {
         Err(_) => {
             rep.spec_fail("C18:panic:path-rpc", "try_from_rpc panicked on to_rpc output of a directly built path", json!({"what": what, "path": cut(&cp)}));
@@ -1962,9 +2036,23 @@ fn check_direct_roundtrip(what: &str, p: &ScionPath, back: RpcPath, rep: &mut Re
         Ok(Err(e)) => Some(format!("try_from_rpc(to_rpc(p)) failed: {e}")),
         Ok(Ok(p2)) => {
             let c2 = canon_path(p2);
+            geo = geo_lost(p, p2);
             (c2 != cp).then(|| format!("try_from_rpc(to_rpc(p)) != p: got {}", cut(&c2)))
         }
     };
+    if class.is_none() {
+        if let Some(g) = &p.metadata().and_then(|m| m.interfaces.as_ref()).map(|l| l.iter().filter_map(|x| x.geo_info.as_ref()).collect::<Vec<_>>()) {
+            if g.iter().any(|g| g.address.is_none() && g.latitude.abs() < 1.0e-6 && g.longitude.abs() < 1.0e-6) { rep.hit("direct path (canonical): a position within 1e-6 of the origin, no address"); }
+            if g.iter().any(|g| g.latitude.is_nan() || g.longitude.is_nan()) { rep.hit("direct path (canonical): NaN coordinate"); }
+            if g.iter().any(|g| g.latitude.to_bits() == 0x8000_0000 || g.longitude.to_bits() == 0x8000_0000) { rep.hit("direct path (canonical): negative-zero coordinate"); }
+        }
+    }
+    // the geo information of a canonical path (present with a non-zero coordinate or an address, or absent) is
+    // reported under its own key with the interface and the coordinate bits
+    if let (Some(g), None) = (&geo, class) {
+        rep.spec_fail("C18:path-roundtrip:geo-info", &format!("ScionPath -> to_rpc -> try_from_rpc changes the geo information of a path whose coordinates are not the wire form of 'absent': {g}"), json!({"what": what, "path": cut(&cp)}));
+        return;
+    }
     match (lost, class) {
         (None, None) => rep.hit("direct path (canonical): roundtrip ok"),
         (None, Some(c)) => rep.hit(&format!("direct path in class {}: survives anyway", c.rsplit(':').next().unwrap())),
@@ -2055,6 +2143,10 @@ fn probe_findings(rng: &mut Rng, lean: &mut Lean, rep: &mut Report, tally: &mut 
         ("probe: ScionPath::new(.., None, None) with a standard data-plane path", mk(None)),
         ("probe: latency on the last interface", mk(Some(meta(ifm(IA_BASE, 1), InterfaceMetadata { latency: Some(std::time::Duration::from_millis(5)), ..ifm(IA_BASE + 1, 2) })))),
         ("probe: bandwidth Some(0)", mk(Some(meta(InterfaceMetadata { bandwidth: Some(0), ..ifm(IA_BASE, 1) }, ifm(IA_BASE + 1, 2))))),
+        ("probe: position next to the origin (5.0e-8, -2.5e-8), no address", mk(Some(meta(InterfaceMetadata { geo_info: Some(GeoCoordinates::new(5.0e-8, -2.5e-8, None)), ..ifm(IA_BASE, 1) }, ifm(IA_BASE + 1, 2))))),
+        ("probe: smallest subnormal latitude, longitude 0, no address", mk(Some(meta(ifm(IA_BASE, 1), InterfaceMetadata { geo_info: Some(GeoCoordinates::new(f32::from_bits(1), 0.0, None)), ..ifm(IA_BASE + 1, 2) })))),
+        ("probe: latitude -0.0, longitude f32::EPSILON, no address", mk(Some(meta(InterfaceMetadata { geo_info: Some(GeoCoordinates::new(-0.0, f32::EPSILON, None)), ..ifm(IA_BASE, 1) }, ifm(IA_BASE + 1, 2))))),
+        ("probe: NaN coordinates, no address", mk(Some(meta(InterfaceMetadata { geo_info: Some(GeoCoordinates::new(f32::NAN, f32::from_bits(0xffc0_1234), None)), ..ifm(IA_BASE, 1) }, ifm(IA_BASE + 1, 2))))),
         ("probe: canonical two-interface path", mk(Some(meta(InterfaceMetadata { bandwidth: Some(5), latency: Some(std::time::Duration::from_millis(5)), link: Some(LinkMeta::Egress(LinkType::Direct)), ..ifm(IA_BASE, 1) }, ifm(IA_BASE + 1, 2))))),
     ];
     for (what, p) in probes {
